@@ -75,6 +75,7 @@ def generate(rng, repo_root, config="A", opts=None):
     kinds = sorted(weights)
     ops = []
     last_fault_at = -10
+    last_grid = {}
     fault_slots = set()
     if nfaults:
         # place faults inside the history (never before the first op: that is the typestate case,
@@ -98,13 +99,19 @@ def generate(rng, repo_root, config="A", opts=None):
         want_fault = i in fault_slots and (not spaced or i - last_fault_at >= 2 or i == 0)
         if want_fault:
             fk = rng.choice([f for f in fault_kinds if f != "F-reject-notimpl"] or ["F-reject-len"])
-            op = _draw_fault_op(rng, fk, k, ospec, fluids, grids)
+            op = _draw_fault_op(rng, fk, k, ospec, fluids, grids, last_grid.get(k))
             if op is not None:
                 ops.append(op)
                 last_fault_at = i
+                if op["op"] == "simulate" and rng.random() < 0.7:
+                    # a fault while nobody looks tests nothing: observe the object right after it
+                    rk = rng.choice(["rf", "rfd", "interp", "interp"])
+                    ops.append(_draw_plain_op(rng, rk, k, ospec, fluids, grids))
                 continue
         kind = _weighted(rng, kinds, weights)
         ops.append(_draw_plain_op(rng, kind, k, ospec, fluids, grids))
+        if ops[-1]["op"] == "simulate":
+            last_grid[k] = ops[-1]["grid"]
     return {"property": "C10", "config": config, "strict_alphabet": strict, "fluids": fluids,
             "objects": objs, "grids": grids, "ops": ops}
 
@@ -143,9 +150,12 @@ def _draw_plain_op(rng, kind, k, ospec, fluids, grids):
     raise ValueError(kind)
 
 
-def _draw_fault_op(rng, fk, k, ospec, fluids, grids):
+def _draw_fault_op(rng, fk, k, ospec, fluids, grids, last_grid=None):
     ideal = ospec["cls"] == "IdealReservoir"
     g = rng.choice("ABC")
+    if last_grid in ("A", "B") and rng.random() < 0.5:
+        # same length as the run whose results the object currently holds (buffers may be reused in place)
+        g = rng.choice(["A", "B"])
     n = len(grids[g]["t"])
     fs = fluids[ospec["fluid"]] if ospec.get("fluid") is not None else None
     pf = ospec["pf"] if not isinstance(ospec["pf"], list) else ospec["pf"][0]
@@ -185,7 +195,7 @@ def _draw_fault_op(rng, fk, k, ospec, fluids, grids):
         call = rng.randrange(0, max(1, n - 1))
         return {"op": "simulate", "obj": k, "grid": g, "sched": None,
                 "fault": {"kind": "F-solver-raise", "call": call,
-                          "exc": rng.choice(["RuntimeError", "MemoryError", "KeyboardInterrupt"])}}
+                          "exc": rng.choice(["RuntimeError", "RuntimeError", "MemoryError", "KeyboardInterrupt"])}}
     return None
 
 
@@ -427,6 +437,7 @@ class Runner:
         abstract = [dict(done=False, cache="none", cache_cur=False, failed=False, sched=False) for _ in range(nobj)]
         last_sim_kind = [None] * nobj
         touched_fluid_by = {}
+        last_completed_op = [None] * nobj
         live_interps = [[] for _ in range(nobj)]  # (interpolator, its output when built) since the last simulate attempt
 
         for i, op0 in enumerate(scn["ops"]):
@@ -489,8 +500,9 @@ class Runner:
                     self.sim_time += float(t[-1] - t[0])
                 if injected and fired and not out_r.ok:
                     # operation cut short
-                    pending_async[k] = fault["kind"] == "F-crash-line" or fault.get("exc") == "KeyboardInterrupt"
+                    pending_async[k] = pending_async[k] or fault["kind"] == "F-crash-line" or fault.get("exc") == "KeyboardInterrupt"
                     pending_fail[k] = True
+                    self._add_cache_dropped_candidate(k, cands, ab, last_completed_op)
                     ever_failed[k] = True
                     ab["failed"] = True
                     if st_r[0] is not None and st_r[1] is not None and cands[k]:
@@ -509,6 +521,7 @@ class Runner:
                             self.violate(i, "A-sim" if not ever_failed[k] else "B1-sim", op0, "state:" + "+".join(sd),
                                          {"max_abs_diff": _maxdiff(st_r, st_f), **self._ctx(k, last_sim_kind)})
                     cands[k] = [fresh]
+                    last_completed_op[k] = {kk: vv for kk, vv in op.items() if kk != "fault"}
                     completed[k] = True
                     pending_fail[k] = False
                     pending_async[k] = False
@@ -531,9 +544,9 @@ class Runner:
                         self.violate(i, "A-sim", op0, "ok-vs-exc", {"fresh": out_f.brief()})
                     elif not injected and out_r.exc != out_f.exc:
                         self.violate(i, "A-sim", op0, "exc-type", {"real": out_r.exc, "fresh": out_f.exc})
-                    pending_fail[k] = True
-                    pending_async[k] = False
+                    pending_fail[k] = True  # (pending_async stays as it is: sticky until a simulate completes)
                     ever_failed[k] = True
+                    self._add_cache_dropped_candidate(k, cands, ab, last_completed_op)
                     ab["failed"] = True
                     if st_r[0] is not None and st_r[1] is not None and cands[k]:
                         if self._state_eq(st_r, self._state(cands[k][0])):
@@ -623,6 +636,16 @@ class Runner:
             if world.table_digest(tables[j]) != self.table_digest0[j]:
                 self.probe("caller_table_changed")
         return self
+
+    def _add_cache_dropped_candidate(self, k, cands, ab, last_completed_op):
+        """A failed simulate may legitimately have dropped the recovery cache (e.g. a tree that clears it before
+        validating): also accept 'last completed simulate, reads forgotten' as the reference."""
+        if last_completed_op[k] is None or not (ab["cache"] != "none" and ab["cache_cur"]) or len(cands[k]) >= 6:
+            return
+        alt = self._fresh(k)
+        self._call(alt, last_completed_op[k], None)
+        cands[k] = cands[k] + [alt]
+        self.probe("cache_dropped_candidate_added")
 
     def _ctx(self, k, last_sim_kind):
         return {"cls": self.scn["objects"][k]["cls"], "prev_sim": last_sim_kind[k]}
